@@ -239,7 +239,15 @@ def check_C06(F, tier, t0):
     guarded(R, 'S eval_recursive (FixedPoint / Subtree / Quantifier arms)', fixarm)
     guarded(R, 'T fixed point', engine_t.rule_operator_tables, F, R, ('fixpoint',))
     guarded(R, 'T tokens', engine_t.rule_tokens, F, R, {'GFP', 'LFP'})
-    guarded(R, 'A3', engine_a.rule_A3, F, R)
+    def a3_fixed_point():
+        sub = Report('A3')
+        engine_a.rule_A3(F, sub)
+        for v in sub.violations:
+            if 'FixedPoint' in v.key or 'FixedPoint' in v.msg or v.rule == 'UNDECIDABLE':
+                R.violation(v.key, v.rule, v.msg, v.loc, v.detail)
+        R.obligations += 2; R.discharged += 2 - min(2, len([v for v in sub.violations if 'FixedPoint' in v.key or 'FixedPoint' in v.msg]))
+        R.count('A3:fixed-point-constructor-paths', 2)
+    guarded(R, 'A3 (FixedPoint constructor)', a3_fixed_point)
     R.floor('functions', 2); R.floor('evaluator-fixed-point-obligations', 7); R.floor('T:fixed-point-rows', 2)
     return finish(R, 'other', tier, t0,
         'Decides the code-dependent premises of Kleene iteration: (a) fp\'s loop, by one symbolic iteration from an arbitrary state: the state starts as the argument, the '
@@ -374,7 +382,7 @@ def check_C12(F, tier, t0):
     guarded(scratch, 'X3', engine_x.rule_X3, F, scratch)
     x3_bad = [v for v in scratch.violations]
     scratch6 = Report('scratch')
-    guarded(scratch6, 'X6', engine_x.rule_X6, F, scratch6)
+    guarded(scratch6, 'X6', engine_x.rule_X6, F, scratch6, ('coverage',))
     x6_bad = [v for v in scratch6.violations]
     guarded(R, 'P', p)
     R.samples = R.samples[:12]
@@ -509,3 +517,22 @@ def check_C19(F, tier, t0):
         'Membership agreement with a reference set under every history follows from these signatures and C02/C03. Not decided: injectivity of categorize beyond bit i '
         'deciding literal i.',
         TRUSTED, [], './check C19')
+
+
+def check_C17(F, tier, t0):
+    R = Report('C17')
+    import engine_u
+    guarded(R, 'U', engine_u.rule_sudoku, F, R)
+    guarded(R, 'L-W', engine_l.rule_width, F, R, 'sudoku_gen')
+    R.floor('U:list-emissions', 4); R.floor('U:proved-families', 4); R.floor('U:families-required', 4); R.floor('U:hint-rule', 1); R.floor('U:whitespace-filter', 1)
+    return finish(R, 'proof', tier, t0,
+        'Constraint-family analysis, symbolic in root (nothing is instantiated): every `[..] = 1` list of the emitted formula is read from THIR as a stack of numeric loops plus one '
+        '`(range).map(|m| format!("_{}_is_{}", CELL, NUM)).join(", ")`; CELL and NUM are brought to polynomial normal form over the loop indices and the sizes root, '
+        'square = root*root, numcells = square*square (m / root and m % root of an index over [0, root*root) become two digit variables); each list is shown to be one of the four sudoku '
+        'families, complete in all its indices - per cell exactly one number in 1..=square; per row and number exactly one column; per column and number exactly one row; per box '
+        '(a,b) in [0,root)^2 and number exactly one cell (a*root+p, b*root+q) - with cell = row*square + col, and all four families are present. Hints: cell i receives the i-th character of '
+        'the whitespace-stripped input iff it is a decimal digit. These constraints are the standard exact encoding, so models correspond one-to-one to completed grids that keep the givens. '
+        'Trusted arithmetic lemmas: row-major and div/mod bijections on [0, r*r), and a*r+p in [0, r*r) for digits a, p. Not decided: well-formedness of the text as a whole (C08), '
+        'givens outside 1..r^2 (excluded by the property), overflow of root^4.',
+        TRUSTED + ['lemmas L1-L3 of rules/engine_u.py (div/mod and mixed-radix bijections)', 'sudoku = each cell one value, each value once per row / column / box, givens kept'],
+        ['root >= 1; givens are digits between 1 and root^2'], './check C17')
